@@ -18,6 +18,8 @@ from .core import WorldBase, Violation, digest_of
 from . import observe as ob
 from . import kernels as K
 from .simfs import SimFS, SimAbort
+from . import traces as TR
+from fibertree.model.intersect import TwoFingerIntersector, SkipAheadIntersector, LeaderFollowerIntersector
 
 THRESHOLDS = [2, 3, 5, 7, 64, 1000]
 TRACE_KINDS = ["iter", "intersect", "populate", "populate_read", "populate_write"]
@@ -112,7 +114,39 @@ class KernelSim(WorldBase):
                 evs.append(["session", s])
             evs.append(["session", dict(target, role="target", ncu=g.choice(THRESHOLDS))])
             return evs
+        if self.prop == "C16":
+            flows = K.all_flows(case, g, tilings=g.random() < 0.3)
+            flow = g.choice(flows)
+            reg = [x + [False] for x in all_reg(flow["order"])]
+            for t in THRESHOLDS:
+                evs.append(["session", {"role": "sweep", "flow": flow, "prefix": "s", "reg": reg, "ncu": t,
+                                        "end": "normal"}])
+            creg = [x[:2] + [True] for x in reg]
+            for _ in range(2):
+                evs.append(["session", {"role": "consume", "flow": flow, "prefix": "c", "reg": creg,
+                                        "ncu": g.choice(THRESHOLDS), "mask": g.getrandbits(48), "end": "normal"}])
+            return evs
+        if self.prop == "C19":
+            return evs + self._plan_c19(g, case)
         raise NotImplementedError(self.prop)
+
+    def _plan_c19(self, g, case):
+        out, ops = K.case_spec(case)
+        idxs = sorted(case["shapes"])
+        cands = [v for v in idxs if len([1 for _, idx in ops if v in idx]) == 2]
+        if not cands:
+            return []
+        v = g.choice(cands)
+        orders = [list(o) for o in __import__("itertools").permutations(idxs) if o.index(v) <= 2]
+        order = g.choice(orders)
+        evs = []
+        for model in ("two-finger", "skip-ahead", "leader-follower"):
+            flow = {"order": order, "style": "leader-follower" if model == "leader-follower" else "and", "tile": None}
+            masks = list(range(16)) + [(1 << 48) - 1] + [g.getrandbits(48) for _ in range(4)]
+            for m in masks:
+                evs.append(["session", {"role": "isect", "flow": flow, "prefix": "i", "rank": v, "model": model,
+                                        "mask": m, "reg": [], "end": "normal"}])
+        return evs
 
     def _gen_session(self, g, case, flow, role, prefix):
         order = flow["order"]
@@ -243,15 +277,47 @@ class KernelSim(WorldBase):
         if s.get("fail_at"):
             fs.arm(s["fail_at"], s.get("fail_kind", "enospc"))
         expect = {} if self.prop in ("C16", "C19") else None
+        hook = None
+        batches = {}
+        hook_n = [0]
+        isect = None
+        if role == "consume":
+            mask = s.get("mask", 0)
+
+            def hook(kind, info):
+                i = hook_n[0]
+                hook_n[0] += 1
+                if (mask >> (i % 48)) & 1:
+                    self._drain(s["reg"], batches)
+                    self.probe("consumer_drained_mid_kernel")
+        if role == "isect":
+            isect = self._isect_setup(s, flow)
+            mask = s.get("mask", 0)
+
+            def hook(kind, info):
+                if kind != "loop-end" or info["rank"] != s["rank"]:
+                    return
+                i = hook_n[0]
+                hook_n[0] += 1
+                if (mask >> (i % 48)) & 1:
+                    self._isect_drain(isect)
         try:
-            Metrics.beginCollect(prefix)
+            Metrics.beginCollect(prefix if role != "isect" else None)
             if s.get("ncu"):
                 Metrics.setNumCachedUses(s["ncu"])
             for rank, typ, cons in s["reg"]:
                 Metrics.trace(rank, typ, consumable=bool(cons))
                 if cons and self.prop == "C15" and s.get("both", True) and (hash_stable(rank + typ) % 2 == 0):
                     Metrics.trace(rank, typ)       # file and consumable at once
-            z, zr = K.run_kernel(self.case, self.tensors, flow, counts, abort_at=s.get("abort_at"), expect=expect)
+            if isect is not None:
+                for typ in isect["types"]:
+                    Metrics.trace(s["rank"], typ, consumable=True)
+            z, zr = K.run_kernel(self.case, self.tensors, flow, counts, abort_at=s.get("abort_at"), expect=expect,
+                                 hook=hook)
+            if role == "consume":
+                self._drain(s["reg"], batches)
+            if isect is not None:
+                self._isect_drain(isect)
         except K.BodyAbort as e:
             err = "BodyAbort"
             self.fault("body-exception")
@@ -301,6 +367,11 @@ class KernelSim(WorldBase):
                "file_events": fs.n}
         res.update({"err": err, "end_err": end_err, "files": len(files), "file_events": fs.n,
                     "counts": out["counts"]})
+        if role in ("sweep", "consume"):
+            self._judge_c16(s, out, expect, batches)
+        if role == "isect":
+            self._judge_c19(s, out, expect, isect)
+            res["n"] = isect["obj"].getNumIntersects() if isect.get("obj") is not None else None
         if role == "first":
             self.first[s["prefix"]] = out
             self._judge_exact(s, out, counts)
@@ -369,6 +440,132 @@ class KernelSim(WorldBase):
             if self.nsess > 3:
                 self.probe("target_after_history")
 
+    # ---- C16
+    def _drain(self, reg, batches):
+        for rank, typ, cons in reg:
+            if cons and Metrics.isCollecting():
+                b = Metrics.consumeTrace(rank, typ)
+                batches.setdefault((rank, typ), []).extend(b)
+
+    def _judge_c16(self, s, out, expect, batches):
+        if self.prop != "C16":
+            return
+        if out["err"] or out["end_err"]:
+            self.V("C16", "C16.no-exception", "session", f"clean session raised {out['err']} / {out['end_err']}")
+            return
+        order = s["flow"]["order"]
+        pre = s["prefix"] + "-"
+        problems = []
+
+        def report(oracle, detail, known=None):
+            problems.append((oracle, detail, known))
+        for rank, typ, cons in s["reg"]:
+            text = out["files"].get(f"{pre}{rank}-{typ}.csv")
+            if text is None:
+                if s["role"] == "sweep":
+                    report("C16.header", f"no trace file for registered trace {rank}-{typ}")
+                continue
+            header, rows = TR.parse(text)
+            TR.judge_trace(rank, typ, header, rows, expect, order, report)
+            if rows:
+                self.probe("trace_rows:" + typ.rstrip("0123456789"), len(rows))
+        for oracle, detail, known in problems:
+            if known:
+                self.V("C16", oracle + "." + known, "session", detail)
+            else:
+                self.V("C16", oracle, "session", detail)
+        if s["role"] == "sweep":
+            ref = self.sweep.get("files")
+            if ref is None:
+                self.sweep["files"] = out["files"]
+                self.sweep["ncu"] = s.get("ncu")
+            elif ref != out["files"]:
+                bad = [n for n in sorted(set(ref) | set(out["files"])) if ref.get(n) != out["files"].get(n)]
+                self.V("C16", "C16.flush-independent", "session",
+                       f"trace {bad[0]} differs between flush thresholds {self.sweep['ncu']} and {s.get('ncu')}")
+            if any(len(t.splitlines()) - 1 >= 2 * (s.get("ncu") or 1000) for t in out["files"].values()):
+                self.probe("flushed_at_least_twice")
+        else:
+            for (rank, typ), rows in batches.items():
+                text = out["files"].get(f"{pre}{rank}-{typ}.csv")
+                if text is None:
+                    continue
+                mem = "".join(",".join(str(v) for v in row) + "\n" for row in rows)
+                if mem != text:
+                    self.V("C16", "C16.consumable-same-rows", "session",
+                           f"in-memory trace {rank}-{typ} delivered {len(rows)} rows, the file holds "
+                           f"{len(text.splitlines())} lines, or their content differs")
+            self.probe("consumable_compared", len(batches))
+
+    # ---- C19
+    def _isect_setup(self, s, flow):
+        out, ops, shapes, tens = K.tiled(self.case, self.tensors, flow)
+        v = s["rank"]
+        base = 2 if v in out else 0
+        model = s["model"]
+        if model == "two-finger":
+            obj, types = TwoFingerIntersector(), [f"intersect_{base}", f"intersect_{base + 1}"]
+        elif model == "skip-ahead":
+            obj, types = SkipAheadIntersector(), [f"intersect_{base}", f"intersect_{base + 1}"]
+        else:
+            obj, types = LeaderFollowerIntersector(), [f"intersect_{base}"]
+        return {"obj": obj, "types": types, "rank": v, "drains": 0, "err": None}
+
+    def _isect_drain(self, isect):
+        if isect["err"]:
+            return
+        ts = [Metrics.consumeTrace(isect["rank"], t) for t in isect["types"]]
+        isect["drains"] += 1
+        try:
+            isect["obj"].addTraces(*ts)
+        except Exception as e:
+            isect["err"] = f"{type(e).__name__}: {str(e)[:60]}"
+
+    def _judge_c19(self, s, out, expect, isect):
+        if self.prop != "C19":
+            return
+        if out["err"] or out["end_err"]:
+            self.V("C19", "C19.no-exception", "session", f"session raised {out['err']} / {out['end_err']}")
+            return
+        v = s["rank"]
+        want = 0
+        nf = 0
+        pairs = []
+        for (rank, point), elist in expect.items():
+            if rank != v:
+                continue
+            e = elist[0]
+            seqs = [e["labels"][t] for t in isect["types"] if t in e["labels"]]
+            if len(seqs) != len(isect["types"]):
+                continue
+            nf += 1
+            if s["model"] == "leader-follower":
+                want += len(seqs[0].coords)
+                pairs.append([seqs[0].coords])
+            else:
+                A, B = seqs[0].coords, seqs[1].coords
+                want += (tf_ref if s["model"] == "two-finger" else sa_ref)(A, B)
+                pairs.append([A, B])
+        if nf == 0:
+            # no intersection was executed: there is no trace to feed the model with
+            self.probe("isect_no_fiber")
+            return
+        mode = "per-fiber" if s["mask"] & ((1 << max(nf, 1)) - 1) == ((1 << max(nf, 1)) - 1) else \
+               ("one-shot" if s["mask"] & ((1 << max(nf, 1)) - 1) == 0 else "mixed")
+        self.probe("isect_schedule:" + mode)
+        if nf >= 2 and mode != "per-fiber":
+            self.probe("batch_spans_several_fibers")
+        if isect["err"]:
+            self.V("C19", "C19.batching", "session",
+                   f"{s['model']} model raised {isect['err']} when fed {nf} fibers in {isect['drains']} batches "
+                   f"(schedule {mode}); fibers: {pairs[:3]}")
+            return
+        got = isect["obj"].getNumIntersects()
+        if got != want:
+            self.V("C19", "C19.count" if mode == "per-fiber" else "C19.batching", "session",
+                   f"{s['model']} model reports {got}, an independent merge of the raw coordinate lists gives {want} "
+                   f"({nf} fibers, {isect['drains']} batches, schedule {mode}); fibers: {pairs[:3]}")
+
     def finish(self):
         # leave no collection running (the child exits anyway)
         return {"sessions": self.nsess, "kernel_executions": self.kexec}
@@ -385,3 +582,40 @@ def hash_stable(s):
     for ch in s:
         h = (h * 131 + ord(ch)) % 1000003
     return h
+
+
+def tf_ref(A, B):
+    i = j = n = 0
+    while i < len(A) and j < len(B):
+        n += 1
+        if A[i] == B[j]:
+            i += 1
+            j += 1
+        elif A[i] < B[j]:
+            i += 1
+        else:
+            j += 1
+    return n
+
+
+def sa_ref(A, B):
+    """maximal same-side runs + matches, until either list is exhausted"""
+    i = j = n = 0
+    cur = None
+    while i < len(A) and j < len(B):
+        if A[i] == B[j]:
+            n += 1
+            cur = None
+            i += 1
+            j += 1
+        elif A[i] < B[j]:
+            if cur != 0:
+                n += 1
+                cur = 0
+            i += 1
+        else:
+            if cur != 1:
+                n += 1
+                cur = 1
+            j += 1
+    return n
